@@ -12,6 +12,7 @@ from fsa.cfg import CFG, ExcHierarchy, Node, raised_class
 from fsa.effects import Effects, effect_nodes
 from fsa.flow import LocalFlow, PARAM, dominators, guards, must_pass, postdominators, node_expr_roots
 from fsa.match import (
+    Wrong,
     Affine,
     Cmp,
     Unknown,
@@ -217,6 +218,8 @@ class SolverShape:
                 continue
             try:
                 cands.append((n, convergence_test(n.ast)))
+            except Wrong as e:
+                raise Wrong(f'{self.q}:L{n.lineno}: {e}')
             except Unknown as e:
                 unknown.append((n, str(e)))
         if len(cands) == 1 and not unknown:
@@ -369,8 +372,24 @@ def _base_name(x: ast.AST) -> Optional[str]:
 def check_convergence(R, sh: SolverShape) -> None:
     from fsa.match import abs_arg
 
-    conv, (quant, op, operand, tol, has_abs) = sh.convergence_node()
+    try:
+        conv, (quant, op, operand, tol, has_abs) = sh.convergence_node()
+    except Wrong as e:
+        R.violation(sh.q, 'convergence:wrong-shape', str(e), where=sh.fi.where)
+        return
     key = 'convergence'
+    # the check values are re-read on every pass (otherwise the saved copy goes stale)
+    try:
+        cur_name, _prev = value_roles(sh)
+        rereads = [n for n in sh.cfg.nodes if n.kind == 'stmt' and isinstance(n.ast, ast.Assign) and len(n.ast.targets) == 1
+                   and text(n.ast.targets[0]) == cur_name and sh.in_loop(n) and sh.n_eval.id in sh.dom[n.id]]
+        ok = bool(rereads) and all(must_pass(sh.cfg, b, sh.loop.id, [r.id for r in rereads], skip_labels=('exc', 'raise'))
+                                   for (b, lab) in sh.n_eval.succ if lab not in ('exc', 'raise'))
+        R.check(ok, sh.q, key + ':reread-every-pass', 'the check values are re-read after every evaluation pass',
+                f'some pass can return to the loop header without re-reading `{cur_name}` after the evaluation call: the copy saved at the next '
+                f'loop head is stale, so a later comparison spans several passes', where=sh.where(sh.n_eval))
+    except AnchorMissing:
+        pass
     R.check(quant == 'all', sh.q, key + ':quant', 'convergence requires every check variable (universal)',
             f'convergence test is existential: `{text(conv.ast)}`', where=sh.where(conv))
     R.check(op == '<', sh.q, key + ':strict', 'movement is compared strictly (< tol)',
